@@ -186,6 +186,29 @@ func runC18(outDir string, seed int64, tier string) {
 				sum.Failures = append(sum.Failures, failure{ID: id, Class: "op:failed-call-changed-the-table", Input: desc,
 					Observed: fmt.Sprint(diffEntries(before, after)), Expected: "no change"})
 			}
+			// a successful call on a single name: the latest definition is in force (priority 0 removes it)
+			if !failed && len(out.Answers) == 1 && strings.HasPrefix(na.coq, "NAtom ") && strings.HasPrefix(pa.coq, "PInt ") && strings.HasPrefix(sa.coq, "SAtom ") {
+				var pv int64
+				fmt.Sscan(strings.Trim(strings.TrimPrefix(pa.coq, "PInt "), "()"), &pv)
+				nm := strings.TrimSuffix(strings.TrimPrefix(na.coq, "NAtom \""), "\"")
+				nm = strings.ReplaceAll(nm, "\"\"", "\"")
+				cls := func(s string) string {
+					return map[string]string{"fx": "pre", "fy": "pre", "xf": "post", "yf": "post", "xfx": "in", "xfy": "in", "yfx": "in"}[s]
+				}
+				found := false
+				for _, e := range after {
+					if e.n == nm && cls(e.s) == cls(sa.text) {
+						found = true
+						if pv == 0 || e.p != pv || e.s != sa.text {
+							sum.Failures = append(sum.Failures, failure{ID: id, Class: "op:latest-definition-not-in-force", Input: desc,
+								Observed: fmt.Sprint(e), Expected: fmt.Sprintf("op(%d, %s, %s)", pv, sa.text, nm)})
+						}
+					}
+				}
+				if !found && pv != 0 {
+					sum.Failures = append(sum.Failures, failure{ID: id, Class: "op:definition-missing-after-successful-op", Input: desc, Observed: "absent", Expected: fmt.Sprintf("op(%d, %s, %s)", pv, sa.text, nm)})
+				}
+			}
 			inf, post := map[string]bool{}, map[string]bool{}
 			slots := map[string]int{}
 			for _, e := range after {
